@@ -269,6 +269,14 @@ func (m *btModel) transition(c chainSpec, pre, post *memory.Database, kind, ret,
 	if len(a1) == 0 {
 		want = "-"
 	}
+	if parts[1] != want && kind == "crash" {
+		// an image taken after the last data commit of the run (only the clearing of the already
+		// empty old buckets follows) is the database of the completed run
+		m.ask("bt.set " + ht + " " + strings.Join(a0, " "))
+		if p2 := strings.SplitN(m.ask("bt.migrate P"), " ", 2); len(p2) == 2 && p2[1] == want {
+			return
+		}
+	}
 	if parts[1] != want {
 		m.res.Mismatch(lib.Mismatch{Sig: "blocktx-image-not-allowed-by-model:" + kind, Input: map[string]any{
 			"spec": c, "where": where, "pre": a0, "step": tok}, Model: parts[1], Impl: want})
@@ -325,7 +333,10 @@ func checkFinal(res *lib.Result, c, imageSpec chainSpec, final *memory.Database)
 		}
 	}
 	// the old buckets must be empty
-	if l := layoutOf(final, c.height()); !c.NoHeight && strings.ContainsAny(l, "ob") {
+	if c.NoHeight {
+		return ok
+	}
+	if l := layoutOf(final, c.height()); strings.ContainsAny(l, "ob") {
 		ok = false
 		res.Violate(lib.Violation{Sig: "blocktx-old-entries-left-after-migration",
 			What:   "old per-transaction entries remain after Migrate returned complete: " + l,
